@@ -1,4 +1,4 @@
-//go:build verif && vobj
+//go:build verif && (vobj || vnet || vrender || vpub)
 
 package main
 
@@ -53,6 +53,8 @@ func dumpJSON(out []int, v any) []int {
 	}
 	panic("dumpJSON: unexpected type")
 }
+
+func float64frombits(b uint64) float64 { return math.Float64frombits(b) }
 
 func errClass(err error) int {
 	if err == nil {
